@@ -16,6 +16,9 @@ dropped, `@R` signal received, `@B` about to store the flag, `@S` stored, `@W` a
 connection, `@w` done, `@J` join done. Harness events: `+a<id>` about to connect client `id` (only clients whose
 connect succeeded are in the log's `id=port` list; the others are in `refused`), `+g` about to send the signal,
 `+Lc`/`+Lo` the port refused / accepted a probe connection when the pool's `Drop` began.
+Client kinds: `J K H S L W O` and the pipelined kinds `a`..`o` (see `pipelined`); client codes of the summary:
+`C P M Z T R h` (`Spec/Shutdown.lean`, `Summary`). The model says `C` for an in-flight client whose connection
+was dispatched and finished (tokio: spawned) — for a pipelined one that is "every request answered" — else `Z`.
 
 Linearisation. Sends are logged before, receives after the real operation. Two places need care:
 * the flag is stored between `@B` and `@S`; a load in between may see either value. The replay places the
@@ -32,6 +35,11 @@ open Humphrey Humphrey.Driver Humphrey.Shutdown
 def natOf (cs : List Char) : Option Nat :=
   if cs.isEmpty then none else (String.ofList cs).toNat?
 
+/-- `a`..`o`: a keep-alive connection on which the client wrote 2 / 3 / 4 / 5 / 64 complete requests at once
+(letter = `a` + 5·first + index; first request short / long / gated). The accept path treats it like any
+other connection; what the client is owed is n responses (the harness's code `C` means all n, in order). -/
+def pipelined (ch : Char) : Bool := 'a'.toNat ≤ ch.toNat && ch.toNat ≤ 'o'.toNat
+
 def trafficOf : Char → Traffic
   | 'J' => .justAccepted
   | 'K' => .idleKeepAlive
@@ -39,9 +47,10 @@ def trafficOf : Char → Traffic
   | 'S' => .handlerShort
   | 'L' => .handlerLong
   | 'W' => .responseWriting
-  | _ => .wsOpen
+  | 'O' => .wsOpen
+  | ch => if pipelined ch then .pipelined else .wsOpen
 
-def inFlight (ch : Char) : Bool := ch == 'S' || ch == 'L' || ch == 'W'
+def inFlight (ch : Char) : Bool := ch == 'S' || ch == 'L' || ch == 'W' || pipelined ch
 
 structure Env where
   rt : Char
